@@ -6,21 +6,24 @@ Import ListNotations.
 
 Definition good_cfg (c : bt_cfg) := reset_index_in_process c && cap0_guard c.
 
+Section PA.
+Variable A : Type.
+
 (* ---------- list lemmas ---------- *)
-Lemma set_nth_app (p q : list N) e x :
+Lemma set_nth_app (p q : list A) e x :
   set_nth (length p) x (p ++ e :: q) = p ++ x :: q.
 Proof. induction p as [|h p IH]; cbn; [reflexivity|]. now rewrite IH. Qed.
 
-Lemma lastn_all {A} n (l : list A) : length l <= n -> lastn n l = l.
+Lemma lastn_all {B} n (l : list B) : length l <= n -> lastn n l = l.
 Proof. intros H. unfold lastn. replace (length l - n) with 0 by lia. reflexivity. Qed.
 
-Lemma lastn_length {A} n (l : list A) : length (lastn n l) = Nat.min n (length l).
+Lemma lastn_length {B} n (l : list B) : length (lastn n l) = Nat.min n (length l).
 Proof. unfold lastn. rewrite skipn_length. lia. Qed.
 
-Lemma lastn_snoc_small {A} n (l : list A) x : length l < n -> lastn n (l ++ [x]) = l ++ [x].
+Lemma lastn_snoc_small {B} n (l : list B) x : length l < n -> lastn n (l ++ [x]) = l ++ [x].
 Proof. intros H. apply lastn_all. rewrite app_length. cbn. lia. Qed.
 
-Lemma lastn_snoc_full {A} n (l : list A) x : 0 < n -> n <= length l ->
+Lemma lastn_snoc_full {B} n (l : list B) x : 0 < n -> n <= length l ->
   lastn n (l ++ [x]) = tl (lastn n l) ++ [x].
 Proof.
   intros Hn Hl. unfold lastn. rewrite app_length. cbn [length].
@@ -32,11 +35,11 @@ Proof.
   - destruct l as [|h l]; [reflexivity|]. cbn [skipn]. apply IH.
 Qed.
 
-Lemma lastn_0 {A} (l : list A) : lastn 0 l = [].
+Lemma lastn_0 {B} (l : list B) : lastn 0 l = [].
 Proof. unfold lastn. rewrite Nat.sub_0_r. apply skipn_all. Qed.
 
 (* the replay loop walks the ring from [i] and wraps: it reads l[i..] then l[..i) *)
-Lemma proc_loop_spec (l : list N) : forall k i, i < length l -> k <= length l ->
+Lemma proc_loop_spec (l : list A) : forall k i, i < length l -> k <= length l ->
   proc_loop k i l = map Some (firstn k (skipn i (l ++ l))).
 Proof.
   induction k as [|k IH]; intros i Hi Hk; [reflexivity|].
@@ -59,9 +62,9 @@ Proof.
     rewrite firstn_app. replace (k - length l) with 0 by lia. cbn [firstn]. now rewrite app_nil_r.
 Qed.
 
-Definition rot (s : bt) : list N := skipn (idx s) (evs s) ++ firstn (idx s) (evs s).
+Definition rot (s : bt A) : list A := skipn (idx s) (evs s) ++ firstn (idx s) (evs s).
 
-Lemma proc_loop_rot s : (idx s < length (evs s) \/ evs s = []) ->
+Lemma proc_loop_rot (s : bt A) : (idx s < length (evs s) \/ evs s = []) ->
   proc_loop (length (evs s)) (idx s) (evs s) = map Some (rot s).
 Proof.
   intros [Hi|He].
@@ -74,7 +77,7 @@ Proof.
 Qed.
 
 (* ---------- refinement ---------- *)
-Record R (s : bt) (sp : btspec) : Prop := {
+Record R (s : bt A) (sp : btspec A) : Prop := {
   r_cap : cap s = scap sp;
   r_len : length (evs s) <= cap s;
   r_idx : idx s = 0 \/ (length (evs s) = cap s /\ idx s < cap s);
@@ -91,7 +94,7 @@ Hypothesis Hcfg : good_cfg cfg = true.
 Lemma cfg2 : reset_index_in_process cfg = true /\ cap0_guard cfg = true.
 Proof. unfold good_cfg in Hcfg. now apply andb_prop in Hcfg. Qed.
 
-Lemma step_refines s sp o : R s sp ->
+Lemma step_refines (s : bt A) (sp : btspec A) o : R s sp ->
   let (s', out) := bt_step cfg s o in
   let (sp', sout) := spec_step sp o in
   R s' sp' /\ out = map Some sout.
@@ -162,7 +165,7 @@ Proof.
     + constructor; cbn; auto; lia.
 Qed.
 
-Theorem bt_refines_from s sp ops : R s sp ->
+Theorem bt_refines_from (s : bt A) (sp : btspec A) ops : R s sp ->
   bt_run cfg s ops = map (map Some) (spec_run sp ops).
 Proof.
   revert s sp. induction ops as [|o ops IH]; intros s sp HR; [reflexivity|].
@@ -174,21 +177,23 @@ Qed.
 
 (* every capacity, every history: the implementation's callbacks are exactly the spec's replays,
    with no out-of-bounds access ([Some] everywhere) *)
-Theorem bt_refines ops : bt_run cfg bt_init ops = map (map Some) (spec_run spec_init ops).
+Theorem bt_refines (ops : list (bop A)) : bt_run cfg bt_init ops = map (map Some) (spec_run spec_init ops).
 Proof. apply bt_refines_from, R_init. Qed.
 End Ref.
 
 (* ---------- the spec says what the property says ---------- *)
 (* number of stores since the last flush/re-init and what a flush emits, in closed form *)
-Lemma spec_process_emits sp :
+Lemma spec_process_emits (sp : btspec A) :
   snd (spec_step sp Process) = lastn (scap sp) (recent sp) /\
   length (snd (spec_step sp Process)) = Nat.min (scap sp) (length (recent sp)) /\
   recent (fst (spec_step sp Process)) = [].
 Proof. cbn. repeat split. apply lastn_length. Qed.
 
 (* once: a second flush right after a flush emits nothing *)
-Lemma spec_process_twice sp : snd (spec_step (fst (spec_step sp Process)) Process) = [].
+Lemma spec_process_twice (sp : btspec A) : snd (spec_step (fst (spec_step sp Process)) Process) = [].
 Proof. reflexivity. Qed.
+
+End PA.
 
 (* ---------- refutations on the unfixed configurations (replays of D1 and D14) ---------- *)
 Definition cfg_noreset := {| reset_index_in_process := false; cap0_guard := true |}.
